@@ -1,6 +1,7 @@
 //! Engines for the runtime containers: C08 (prefix trees), C14 (weight-balanced map), C18 (toposort).
 mod ptree;
 mod toposort;
+mod unif;
 mod wbmap;
 
 use serde_json::{json, Value};
@@ -23,6 +24,7 @@ fn main() {
             "C14" => wbmap::replay(&case),
             "C18" => toposort::replay(&case),
             "C08" => ptree::replay(&case),
+            "C05" => unif::replay(&case),
             _ => Err("unknown property".into()),
         };
         match res {
@@ -49,6 +51,7 @@ fn main() {
                 merge(vec![("K=6 full", a), ("K=8 unary", b), ("interval family n<=20", d)])
             }
         }
+        "C05" => unif::run(if thorough { 7 } else { 6 }),
         "C18" => toposort::run(&toposort::Config {
             max_n: if thorough { 4 } else { 3 },
             max_m: if thorough { 4 } else { 3 },
@@ -61,7 +64,7 @@ fn main() {
             wall_cap_s: envu("VERIF_WALL_CAP", if thorough { 1500 } else { 100 }),
             rich: thorough,
         }),
-        _ => { eprintln!("usage: containers C08|C14|C18 --tier quick|thorough --out FILE [--replay FILE]"); std::process::exit(2) }
+        _ => { eprintln!("usage: containers C05|C08|C14|C18 --tier quick|thorough --out FILE [--replay FILE]"); std::process::exit(2) }
     };
     res["wall_s"] = json!(t0.elapsed().as_secs_f64());
     let text = serde_json::to_string_pretty(&res).unwrap();
